@@ -203,6 +203,20 @@ pub fn build_events(args: &Args) {
             let d = doc_of(table_insert(s));
             (d.to_string(), doc_of(table_insert(s)).clone().to_string())
         }));
+        // the same tree with the formatting switches of the API turned on everywhere (not raw decor: a trailing
+        // comma on every array, also the empty ones; trailing commas must never make the text invalid)
+        routes.push(route("insert/push + trailing commas", true, || {
+            struct Commas;
+            impl toml_edit::visit_mut::VisitMut for Commas {
+                fn visit_array_mut(&mut self, node: &mut toml_edit::Array) {
+                    node.set_trailing_comma(true);
+                    toml_edit::visit_mut::visit_array_mut(self, node);
+                }
+            }
+            let mut d = doc_of(table_insert(s));
+            toml_edit::visit_mut::VisitMut::visit_document_mut(&mut Commas, &mut d);
+            (d.to_string(), d.clone().to_string())
+        }));
         routes.push(route("index-assign", true, || {
             let d = doc_of(table_index(s));
             (d.to_string(), d.to_string())
